@@ -152,8 +152,8 @@ def run(ctx):
     ctx.trusted = ['Coq 8.16.1 kernel (C08 theorems are axiom-free over Q); vm_compute',
                    'astropy Time (two-double) differences as exact rationals on the TAI scale; float64 Horner evaluation within 1e-8 cycles '
                    'inside the sampled envelope F0*span/2 <= 1e6 cycles (assumption of the correspondence, not of the theorems)']
-    ctx.assumptions = ['times closer than 20 microseconds to a span end are not used for the entry-selection comparison (searchsorted works on '
-                       'float MJD, resolution ~1 us)', 'time_at (Newton iteration) is checked by the monitor only']
+    ctx.assumptions = ['times closer than 1 ns to a span end are not used for the entry-selection comparison with the exact model (the code holds '
+                       'span ends as two-double Times, a few 1e-12 s from the exact decimal value); for the monitor such an entry counts as containing the time', 'time_at (Newton iteration) is checked by the monitor only']
     built = ctx.build(['Props/C08.vo'])
     ctx.count_obligations(VFILES)
     if built:
@@ -185,8 +185,12 @@ def run(ctx):
         half = Fr(par['span'] * 30)
         spans = sorted((tm[e['tmid_str']] - half, tm[e['tmid_str']] + half, e) for e in entries)
 
+        # the code's span ends are the two-double Times tmid +- span/2 (a few 1e-12 s from the exact decimal value): a time within
+        # 1e-10 s of an exact end counts as inside that entry's span
+        SLACK = Fr(1, 10 ** 10)
+
         def containing(ts):
-            return [e for a, b, e in spans if a <= ts <= b]
+            return [e for a, b, e in spans if a - SLACK <= ts <= b + SLACK]
 
         # ---- intervals
         try:
@@ -211,7 +215,7 @@ def run(ctx):
         NT = 8 if ctx.tier == 'quick' else 14
         for k in range(NT):
             a, b, e = rng.choice(spans)
-            mode = rng.choice(['inside', 'inside', 'inside', 'edge', 'outside', 'array'])
+            mode = rng.choice(['inside', 'inside', 'inside', 'edge', 'outside', 'array', 'just_past_end'])
             base_t = Time(e['tmid_str'], format='mjd', precision=9)
             if mode == 'inside':
                 off = rng.uniform(-0.999, 0.999) * float(half)
@@ -219,6 +223,9 @@ def run(ctx):
                 off = rng.choice([-1, 1]) * (float(half) - rng.choice([1e-3, 0.5, 30.0]))
             elif mode == 'outside':
                 off = rng.choice([-1, 1]) * (float(half) + rng.choice([10.0, 3600.0, 86400.0 * 30]))
+            elif mode == 'just_past_end':
+                # closer to the end of this entry than a float MJD resolves (~0.6 us): an overlapping neighbour must take over
+                off = float(half) + rng.choice([1e-9, 3e-8, 1e-7, 4e-7])
             else:
                 off = None
             if mode == 'array':
@@ -242,7 +249,7 @@ def run(ctx):
             ctx.seen(inp); ctx.count('time:' + mode)
             ts = [X.sec(x) for x in tlist]
             inside_any = [any(i0 <= x - t0s <= i1 for i0, i1 in iv) for x in ts]
-            near_end = any(abs(x - bb) < Fr(2, 10 ** 5) or abs(x - aa) < Fr(2, 10 ** 5) for x in ts for aa, bb, _ in spans)
+            near_end = any(abs(x - bb) < Fr(1, 10 ** 9) or abs(x - aa) < Fr(1, 10 ** 9) for x in ts for aa, bb, _ in spans)
             try:
                 r = p(times)
                 vals = [phase_exact(r)] if times.isscalar else [phase_exact(x) for x in r.reshape(-1)]
